@@ -282,7 +282,8 @@ def _segs_equal(a, b, facts=()):
             ok, why = segs_equal(x[3], y[3], facts)
             if not ok: return False, 'in repetition: ' + why
         elif k == 'cond':
-            if x[1] != y[1]: return False, 'condition %s vs %s' % (show(x[1]), show(y[1]))
+            # two spellings of one condition (a truncation the known ranges make the identity): decided as 0/1 terms
+            if x[1] != y[1] and not equal(x[1], y[1], facts)[0]: return False, 'condition %s vs %s' % (show(x[1]), show(y[1]))
             for p, q in ((x[2], y[2]), (x[3], y[3])):
                 ok, why = segs_equal(p, q, facts)
                 if not ok: return False, 'in branch of %s: %s' % (show(x[1]), why)
